@@ -449,3 +449,34 @@ func c16HistPart(r *ev.Run, m *dyn.Model, batch, nb int) {
 		}
 	}
 }
+
+// injectInapplicable sends every monitor of the server a notification that no
+// cache can apply (modify of a row that does not exist in a table the client
+// knows but does not monitor): what a client sees when a monitor request of its
+// own timed out locally but was registered by the server.
+func (h *histServer) injectInapplicable(table string) {
+	h.mu.Lock()
+	mons := append([]*histMon{}, h.mons...)
+	id := h.hist[len(h.hist)-1].id
+	bogus := HistUpdates{table: {h.p.UUID(): {"modify": map[string]interface{}{"n": 5}}}}
+	h.mu.Unlock()
+	for _, mo := range mons {
+		var reply interface{}
+		var args []interface{}
+		method := "update2"
+		switch mo.method {
+		case "monitor_cond_since":
+			method, args = "update3", []interface{}{mo.id, id, bogus}
+		case "monitor":
+			continue
+		default:
+			args = []interface{}{mo.id, bogus}
+		}
+		call := mo.c.Go(method, args, &reply, make(chan *rpc2.Call, 1))
+		select {
+		case <-call.Done:
+		case <-time.After(2 * time.Second):
+		}
+		return // once is enough
+	}
+}
